@@ -1,7 +1,3 @@
-mod c10;
-mod c11;
-mod tables;
-
 fn main() {
-    vcore::main_with(vec![c10::check(), c11::check()], &[]);
+    vcore::main_with(vec![vsst::c10::check(), vsst::c11::check()], &[]);
 }
